@@ -53,7 +53,7 @@ def gate_rewrites(c):
                 "db" if "f.asn" in nxt or "f.country" in nxt else "X%d" % n[0])
         return '%sverifLock(ctx, f.mu, "%s")\n%sdefer verifUnlock(ctx, f.mu, "%s")\n\n%s' % (
             m.group(1), site, m.group(1), site, nxt)
-    ov = c.rewrite_sub(PKG + "/file.go", [(r"^(\t+)f\.mu\.Lock\(\)\n\1defer f\.mu\.Unlock\(\)\n\n([^\n]*)", rep, 3)],
+    ov = c.rewrite_sub(PKG + "/file.go", [(r"^(\t+)f\.mu\.Lock\(\)\n\1defer f\.mu\.Unlock\(\)\n\n([^\n]*)", rep, 1)],
                        decl=HOOK_DECL)
     return ov, n[0]
 
@@ -167,7 +167,10 @@ def gen_world(rng, wid):
     def ctry_rec(b, n):
         c = rng.choice(ctrs + [""]) if rng.random() < 0.9 else rng.choice(ctrs)
         sub = rng.choice(SUBS.get(c, [""]))
-        return N(b, n, 0, c, CONT[c], sub)
+        rec = N(b, n, 0, c, CONT[c], sub)
+        if sub and rng.random() < 0.4:
+            rec["sub2"] = "X2"   # a second, less significant subdivision: never the one that is used
+        return rec
     for k in range(rng.choice([2, 2, 3])):
         nets = [N(b, n, rng.choice(asns + [0, 99])) for b, n in rng.sample(v4, rng.randrange(3, 7))]
         nets += [N(b, n, rng.choice(asns + [99])) for b, n in rng.sample(v6n, rng.randrange(1, 3))]
@@ -269,7 +272,7 @@ def shipped(kind, name):
 
 def scripted_worlds(th):
     ws = []
-    nd, ns = (2500, 700) if th else (260, 160)
+    nd, ns = (6000, 1500) if th else (260, 160)
     base = [shipped("A", "isp"), shipped("C", "city"), shipped("C", "country")]
     ws.append({"id": "shipped-table", "src": "table", "hostcap": 3, "ipcap": 100000, "tops": SMALL_TOPS, "alltop": [1221, 2516, 7922],
                "files": base,
@@ -368,7 +371,8 @@ def run_models(c):
     th = c.thorough
     jobs = [
         ("GeoIP_mc.cfg", None, 8, "one refresher, 3 versions of each database (one unloadable, one whose scans fail), 3 addresses, 2 answers"),
-        ("GeoIP_mc_serial.cfg", None, 4, "two refreshers that exclude one another"),
+        ("GeoIP_mc_serial.cfg", None, 4, "two refreshers that exclude one another (coverage of every action recorded)"),
+        ("GeoIP_mc_late.cfg", None, 4, "the maps published together with the databases (a repaired File): also MapsNeverAhead"),
         ("GeoIP_sanity_noclear.cfg", "CacheAgreesWithDB", 1, "sanity: the swap leaves the caches alone"),
         ("GeoIP_sanity_swap2.cfg", "ReadersSeeOneVersion", 1, "sanity: the two databases are swapped in two critical sections"),
         ("GeoIP_sanity_failclears.cfg", "FailedRefreshKeepsOld", 1, "sanity: a failed refresh publishes / drops derived maps"),
@@ -383,7 +387,15 @@ def run_models(c):
 
     def one(j):
         cfg, exp, nw, name = j
-        return c.tlc_mc("GeoIP_mc", cfg, workers=nw, expect_violation=exp, count=False, name=name, timeout=2400)
+        r = c.tlc_mc("GeoIP_mc", cfg, workers=nw, expect_violation=exp, count=False, name=name, timeout=2400,
+                     coverage=cfg == "GeoIP_mc_serial.cfg")
+        if cfg == "GeoIP_mc_serial.cfg":
+            # every action of the specification is taken (the two halves of the defective swap belong to a sanity variant)
+            acts = set(a for a, _, _ in r.zero_coverage()) & {"PutFile", "DataIP", "DataHost", "Subnet", "RStart", "RSwapLoc",
+                                                              "RSwapCtry", "RJoin", "RSwapDB"}
+            if acts:
+                raise Undecided("actions never taken in the exhaustive run: %s" % sorted(acts))
+        return r
     with ThreadPoolExecutor(max_workers=3) as ex:
         res = list(ex.map(one, jobs))
     for j, r in zip(jobs, res):
@@ -522,9 +534,7 @@ def run(c: Check):
 
 def judge(c, ev, files, concurrent=False):
     fails, nonconf = validate(c, ev, files)
-    steps = {}
-    last = c.cov["tlc_runs"][-1]
-    return fails, nonconf, steps
+    return fails, nonconf, c.ext9_steps
 
 
 PENDING_FILE = os.path.join(VERIF, "pending_fixes", "EXT9-known-findings.json")
